@@ -17,7 +17,7 @@ import PdfModel.Spec.ContentEquiv
   c08.spec <cur x.y|-> <hexkw> <operands joined by ;>
                                          → `none` | `unsupported` | `construct` | `illformed` | `ok <ops>`
   c08.specrun <tokens>                   → `ok <ops>` | `none`   (Spec.specRun on the statements)
-  c08.real beq|neg|ofint|toint|special … → the `f32` instance of `RealOps`
+  c08.real beq|neg|ofint|toint|big|special … → the `f32` instance of `RealOps`
 -/
 
 namespace DrvC08
@@ -457,7 +457,11 @@ def handle (args : List String) : String :=
     | none => "bad-request"
   | ["c08.real", "toint", a] =>
     match parseHex8 a with
-    | some a => showOptInt (ro.toInt? a)
+    | some a => showOptInt (ro.intDigits? a)
+    | none => "bad-request"
+  | ["c08.real", "big", a] =>
+    match parseHex8 a with
+    | some a => showBool (ro.big a)
     | none => "bad-request"
   | ["c08.real", "special", a] =>
     match parseHex8 a with
